@@ -194,9 +194,10 @@ class IndexVal:
 
 
 class Frame:
-    __slots__ = ("env", "parent", "outer_names", "yields", "comp")
+    __slots__ = ("env", "parent", "outer_names", "yields", "comp", "locals_")
 
     def __init__(self, parent=None, comp=False):
+        self.locals_ = frozenset()     # names the function binds somewhere (Python: local from the start of the function)
         self.env = {}
         self.parent = parent
         self.outer_names = set()       # names declared nonlocal
@@ -447,12 +448,16 @@ def resolve_index(shape, key):
                     if p is None:
                         parts.append(None)
                     else:
+                        if isinstance(p, FRat):
+                            raise PyError("TypeError", "slice indices must be integers")
                         q = G.int_of(p)
                         if q is None:
                             raise Unsupported("slice bound that is not an integer constant")
                         parts.append(q)
                 ents.append(("slice",) + tuple(parts))
                 continue
+            if isinstance(k, FRat):
+                raise PyError("IndexError", "only integers, slices, ellipsis, newaxis and integer or boolean arrays are valid indices")
             q = G.int_of(k)
             if q is None:
                 raise Unsupported("index that is not an integer constant")
@@ -555,10 +560,25 @@ def s_mul(a, b):
     return a * b
 
 
+class FRat(F.Rat):
+    """a constant that is a Python / numpy *float* (a float literal or the result of a true division of constants): usable everywhere as
+    a number, but not where Python insists on an integer (range, shapes, indices, slice bounds).  Arithmetic gives plain formulas again
+    (the mark is lost, never invented)."""
+    __slots__ = ()
+
+
+def as_float(v):
+    return FRat(v.n, v.d) if is_rat(v) and v.is_const() and not isinstance(v, FRat) else v
+
+
+def no_float(v):
+    return F.Rat(v.n, v.d) if isinstance(v, FRat) else v
+
+
 def s_div(a, b):
     if b.is_zero():
         raise Unsupported("division by zero")
-    return a / b
+    return as_float(a / b)
 
 
 def s_pow(a, b):
@@ -913,6 +933,7 @@ class Shared:
         self.divs = []         # (numerator, denominator, node) of every evaluated scalar division
         self.calls = []        # (name, [positional values], {keyword: value}, node) of calls that stayed opaque or were hooked
         self.cells = []        # (object value, index, stored value, node) of stores into opaque objects
+        self.assumed = []      # (value of the test, decision) of every test that was answered by the regime split, not by its value
         self.counter = 0
         self.generic_loops = 0
 
@@ -937,6 +958,29 @@ class ModuleScope:
         self.nodes = {}
         self.cache = {}
         self.public = set()
+        self.bound = set()         # every name the module binds at its top level, however (a name outside it is a NameError)
+        self.star = False
+        stack = list(mod.tree.body)
+        while stack:
+            n = stack.pop()
+            if isinstance(n, (ast.FunctionDef, ast.AsyncFunctionDef, ast.ClassDef)):
+                self.bound.add(n.name)
+                continue
+            if isinstance(n, (ast.Import, ast.ImportFrom)):
+                for a in n.names:
+                    if a.name == "*":
+                        self.star = True
+                    self.bound.add((a.asname or a.name).split(".")[0])
+                continue
+            for ch in ast.walk(n):
+                if isinstance(ch, ast.Name) and isinstance(ch.ctx, ast.Store):
+                    self.bound.add(ch.id)
+                elif isinstance(ch, (ast.Import, ast.ImportFrom)):
+                    stack.append(ch)
+                elif isinstance(ch, ast.ExceptHandler) and ch.name:
+                    self.bound.add(ch.name)
+                elif isinstance(ch, (ast.Global,)):
+                    self.star = True
         for st in mod.tree.body:
             if isinstance(st, ast.FunctionDef):
                 self.nodes.setdefault(st.name, []).append(("def", st))
@@ -961,6 +1005,7 @@ def canon_module(name):
     return name
 
 
+PY_BUILTINS = set(dir(__import__("builtins")))
 KNOWN_MODULES = {"np", "math", "linalg", "itertools", "copy", "warnings", "sys", "pd", "scipy", "locate", "ytools", "np.linalg", "pandas",
                  "functools", "operator", "types"}
 
@@ -985,6 +1030,8 @@ class Interp:
         while f is not None:
             if name in f.env:
                 return f.env[name]
+            if name in f.locals_ and name not in f.outer_names:
+                raise PyError("UnboundLocalError", f"local variable '{name}' referenced before assignment")
             f = f.parent
         return self.module_name(name)
 
@@ -1015,9 +1062,10 @@ class Interp:
         elif defs and all(k == "def" for k, _ in defs):
             val = Builtin(name)
         if val is None:
-            if name in LIB or name in ("ValueError", "TypeError", "RuntimeError", "KeyError", "IndexError", "Exception", "print", "isinstance", "str", "repr",
-                                       "RuntimeWarning", "UserWarning"):
+            if name in LIB or name in PY_BUILTINS:
                 val = Builtin(name)
+            elif name not in sc.bound and not sc.star:
+                raise PyError("NameError", f"name '{name}' is not defined")
             else:
                 val = F.sym(name)
         sc.cache[name] = val
@@ -1090,6 +1138,7 @@ class Interp:
                     k = G.vkey(x)
                     if k in self.decisions:
                         r = self.decisions[k]
+                        self.sh.assumed.append((x, r))
                     else:
                         pending.append((k, x))
             if r is not None:
@@ -1123,8 +1172,10 @@ class Interp:
             return ELLIPSIS
         if isinstance(v, str):
             return mkstr(v)
-        if isinstance(v, (int, float)):
+        if isinstance(v, int):
             return F.const(const_from_node(node, self.ctx.src))
+        if isinstance(v, float):
+            return as_float(F.const(const_from_node(node, self.ctx.src)))
         if isinstance(v, complex):
             return F.I * F.const(Fraction(repr(v.imag)))
         raise Unsupported(f"constant {v!r}")
@@ -1233,6 +1284,8 @@ class Interp:
                 return v.reshape((v.size,))
             return Bound(v, name)
         if is_rat(v):
+            if G.same(v, NONE):
+                raise PyError("AttributeError", f"'NoneType' object has no attribute '{name}'")
             if name in IDENT_ATTRS or name == "T":
                 return v
             if not _objectlike(v):
@@ -1351,6 +1404,8 @@ class Interp:
     def binop(self, op, a, b, node):
         if is_unknown(a) or is_unknown(b):
             return a if is_unknown(a) else b
+        if (is_rat(a) and G.same(a, NONE)) or (is_rat(b) and G.same(b, NONE)):
+            raise PyError("TypeError", f"unsupported operand type(s) for {type(op).__name__}: 'NoneType' (`{_src(node)}`)")
         if isinstance(op, ast.MatMult):
             return matmul(a, b)
         seq_a, seq_b = isinstance(a, (tuple, LVal)), isinstance(b, (tuple, LVal))
@@ -1404,6 +1459,8 @@ class Interp:
                         v = v.flat()[0]
                     if not is_rat(v):
                         raise Unsupported("slice bound")
+                    if isinstance(v, FRat):
+                        raise PyError("TypeError", f"slice indices must be integers (`{_src(p)}`)")
                     parts.append(None if G.same(v, NONE) else v)
             return G.slice_value(*parts)
         return self.eval(sl, fr)
@@ -1463,6 +1520,8 @@ class Interp:
                 return base.take(_axis_select(len(base.ids), key))
             raise Unsupported("table subscript")
         if is_rat(base):
+            if G.same(base, NONE):
+                raise PyError("TypeError", f"'NoneType' object is not subscriptable (`{_src(node)}`)")
             return F.fn("idx", base, wrap(key))
         raise Unsupported(f"subscript of a {type(base).__name__}")
 
@@ -1584,6 +1643,8 @@ class Interp:
             kw.update(kwargs)
             return self.call(f.func, list(f.args) + list(args), kw, node)
         if is_rat(f):
+            if G.same(f, NONE) or f.is_const():
+                raise PyError("TypeError", f"object is not callable (`{_src(node)}`)")
             d = G.single_atom(f)
             name = d[1] if d is not None and d[0] == "s" else f"<{f!r}>"
             if self.hook is not None:
@@ -1608,6 +1669,7 @@ class Interp:
             raise Unsupported(f"call depth (recursion?) at {f.name}")
         a = f.node.args
         fr = Frame(f.closure)
+        fr.locals_ = _locals_of(f.node)
         params = [x.arg for x in a.posonlyargs + a.args]
         if len(args) > len(params) and not a.vararg:
             raise PyError("TypeError", f"too many arguments for {f.name}")
@@ -1666,6 +1728,8 @@ class Interp:
     def method(self, obj, name, args, kwargs, node):
         if is_unknown(obj):
             return obj
+        if is_rat(obj) and G.same(obj, NONE):
+            raise PyError("AttributeError", f"'NoneType' object has no attribute '{name}'")
         table = METHODS.get(type(obj))
         if isinstance(obj, tuple):
             table = METHODS[tuple]
@@ -1924,6 +1988,49 @@ class Interp:
 
 
 _GEN = {}
+_LOCALS = {}
+
+
+def _locals_of(fn):
+    """names a function binds in its own scope (parameters, assignment / loop / with / except / import targets, nested defs)"""
+    r = _LOCALS.get(id(fn))
+    if r is not None and r[0] is fn:
+        return r[1]
+    names, outer = set(), set()
+    a = fn.args
+    for x in a.posonlyargs + a.args + a.kwonlyargs + ([a.vararg] if a.vararg else []) + ([a.kwarg] if a.kwarg else []):
+        names.add(x.arg)
+
+    def walk(n, comp=False):
+        for ch in ast.iter_child_nodes(n):
+            if isinstance(ch, (ast.FunctionDef, ast.AsyncFunctionDef, ast.ClassDef)):
+                names.add(ch.name)
+                continue
+            if isinstance(ch, ast.Lambda):
+                continue
+            if isinstance(ch, (ast.ListComp, ast.SetComp, ast.DictComp, ast.GeneratorExp)):
+                # targets of a comprehension live in its own scope; a walrus inside binds in the function
+                for w in ast.walk(ch):
+                    if isinstance(w, ast.NamedExpr) and isinstance(w.target, ast.Name):
+                        names.add(w.target.id)
+                continue
+            if isinstance(ch, ast.Name) and isinstance(ch.ctx, (ast.Store, ast.Del)):
+                names.add(ch.id)
+            elif isinstance(ch, (ast.Import, ast.ImportFrom)):
+                for al in ch.names:
+                    names.add((al.asname or al.name).split(".")[0])
+            elif isinstance(ch, ast.ExceptHandler) and ch.name:
+                names.add(ch.name)
+            elif isinstance(ch, (ast.Global, ast.Nonlocal)):
+                outer.update(ch.names)
+            elif isinstance(ch, (ast.MatchAs, ast.MatchStar)) and ch.name:
+                names.add(ch.name)
+            walk(ch)
+    if not isinstance(fn, ast.Lambda):
+        walk(fn)
+    res = frozenset(names - outer)
+    _LOCALS[id(fn)] = (fn, res)
+    return res
 
 
 def _is_generator(fn):
@@ -1971,6 +2078,8 @@ def _arg(args, kwargs, k, name, default=None):
 def _int(v, what):
     if isinstance(v, Arr) and v.size == 1:
         v = v.flat()[0]
+    if isinstance(v, FRat):
+        raise PyError("TypeError", f"'float' object cannot be interpreted as an integer ({what})")
     k = G.int_of(v) if is_rat(v) else None
     if k is None:
         raise Unsupported(f"{what} is not an integer constant")
@@ -2069,7 +2178,7 @@ def L_range(ip, args, kwargs, node):
 
 
 def L_arange(ip, args, kwargs, node):
-    r = L_range(ip, args, kwargs, node)
+    r = L_range(ip, [no_float(a) for a in args], kwargs, node)
     return r if r is NotImplemented else as_arr(r)
 
 
@@ -2413,7 +2522,19 @@ def L_int(ip, args, kwargs, node):
     v = args[0] if args else F.const(0)
     if isinstance(v, Arr) and v.size == 1:
         v = v.flat()[0]
-    return v if is_rat(v) else NotImplemented
+    if not is_rat(v):
+        return NotImplemented
+    c = G.const_of(v)
+    if c is not None and c.denominator != 1 and isinstance(node, ast.Call) and getattr(node.func, "id", getattr(node.func, "attr", "")).startswith("int"):
+        return F.const(int(c))            # int() truncates
+    return no_float(v)
+
+
+def L_float(ip, args, kwargs, node):
+    v = args[0] if args else F.const(0)
+    if isinstance(v, Arr) and v.size == 1:
+        v = v.flat()[0]
+    return as_float(v) if is_rat(v) else NotImplemented
 
 
 def L_bool(ip, args, kwargs, node):
@@ -2671,8 +2792,8 @@ LIB = {
     "math.radians": L_radians, "np.radians": L_radians, "np.deg2rad": L_radians,
     "np.add": _binary(s_add), "np.subtract": _binary(s_sub), "np.multiply": _binary(s_mul),
     "slice": L_slice, "tuple": L_tuple, "list": L_list, "dict": L_dict, "set": L_list, "enumerate": L_enumerate, "zip": L_zip,
-    "reversed": L_reversed, "sorted": L_sorted, "map": L_map, "filter": L_filter, "int": L_int, "float": L_int, "bool": L_bool,
-    "np.float64": L_int, "np.int64": L_int, "np.float32": L_int, "np.int32": L_int, "np.squeeze": L_ident, "np.real": L_ident,
+    "reversed": L_reversed, "sorted": L_sorted, "map": L_map, "filter": L_filter, "int": L_int, "float": L_float, "bool": L_bool,
+    "np.float64": L_float, "np.int64": L_int, "np.float32": L_float, "np.int32": L_int, "np.squeeze": L_ident, "np.real": L_ident,
     "itertools.count": L_count, "itertools.product": L_product, "itertools.chain": L_chain,
     "copy.copy": L_copy, "copy.deepcopy": L_copy, "np.ix_": L_ix, "np.diag": L_diag, "np.array_equal": L_array_equal,
     "print": L_noop, "warnings.warn": L_noop, "isinstance": L_isinstance,
@@ -2894,11 +3015,17 @@ class Run:
 
     def __init__(self, ip, ret, raised, pyerror=None):
         self.ip, self.ret, self.raised = ip, ret, raised
-        self.pyerror = pyerror       # the exception Python / numpy would raise in this regime (every test on the way was decided when `sure`)
-        self.sure = not ip.decisions
+        self.pyerror = pyerror       # the exception Python / numpy would raise in this regime
+        self.assumed = ip.sh.assumed
         self.sh = ip.sh
         self.asked, self.divs, self.calls, self.cells = ip.sh.asked, ip.sh.divs, ip.sh.calls, ip.sh.cells
         self.decisions = ip.decisions
+
+    @property
+    def sure(self):
+        """the regime exists: no test was assumed, or a point of the parameter space was found at which every assumed test has the assumed
+        outcome (exact evaluation; the regime of a run-time error must be shown to be reachable before the error is reported)"""
+        return feasible(self.assumed)
 
 
 def explore(ctx, rel, fn, args=None, truth=None, hook=None, stops=(), inline_public=(), presets=None, max_paths=96):
@@ -2948,3 +3075,45 @@ def explore(ctx, rel, fn, args=None, truth=None, hook=None, stops=(), inline_pub
             raise Unsupported("evaluation too deep")
         done.append(Run(ip, ret, False))
     return done
+
+
+_TRIPLES = [(Fraction(3, 5), Fraction(4, 5)), (Fraction(5, 13), Fraction(12, 13)), (Fraction(-8, 17), Fraction(15, 17)), (Fraction(4, 5), Fraction(-3, 5)),
+            (Fraction(-12, 13), Fraction(-5, 13)), (Fraction(0), Fraction(1)), (Fraction(1), Fraction(0)), (Fraction(0), Fraction(-1)), (Fraction(-1), Fraction(0)),
+            (Fraction(7, 25), Fraction(24, 25)), (Fraction(-20, 29), Fraction(21, 29))]
+_VALUES = [Fraction(0), Fraction(1), Fraction(-1), Fraction(2), Fraction(-3), Fraction(1, 2), Fraction(-5, 4), Fraction(7, 3), Fraction(1, 1000000000000),
+           Fraction(10), Fraction(-7, 2)]
+
+
+def feasible(assumed, tries=60):
+    """is there a point at which all the assumed tests have their assumed outcome?  A small deterministic search over exact points: symbols
+    take simple rationals, sin / cos of one argument a Pythagorean pair; True only when such a point was found."""
+    if not assumed:
+        return True
+    atoms = {}
+    for v, _ in assumed:
+        for aid, d in G.atoms_of(v):
+            atoms[aid] = d
+    syms = sorted(a for a, d in atoms.items() if d[0] == "s" and d[1] not in ("True", "False", "None", "pi"))
+    trig = {}
+    for a, d in atoms.items():
+        if d[0] in ("sin", "cos"):
+            trig.setdefault(d[1], {})[d[0]] = a
+    import random
+    rnd = random.Random(14)
+    for _ in range(tries):
+        asg = {a: rnd.choice(_VALUES) for a in syms}
+        for a, d in atoms.items():
+            if d == ("s", "pi"):
+                asg[a] = Fraction(355, 113)
+        for key, pair in trig.items():
+            sn, cs = rnd.choice(_TRIPLES)
+            if "sin" in pair:
+                asg[pair["sin"]] = sn
+            if "cos" in pair:
+                asg[pair["cos"]] = cs
+        try:
+            if all((G.conc(v, asg) != 0) == dec for v, dec in assumed):
+                return True
+        except G.Undecided:
+            continue
+    return False
